@@ -350,8 +350,7 @@ Proof.
     try reflexivity; exfalso; subst; nia.
 Qed.
 
-(* exact behaviour of constraint_resize, including when it raises (None): with align_corners and an IFM height of 1
-   (resp. without it and an IFM height of 0) the quotient is inf or nan and int() of it raises *)
+(* exact behaviour of constraint_resize, including when it raises (None): int() of an inf/nan quotient *)
 Theorem constraint_resize_spec : forall (ifm ofm : list Z) (align : bool),
   let ih := py_nth ifm 1 in let iw := py_nth ifm 2 in let oh := py_nth ofm 1 in let ow := py_nth ofm 2 in
   let dh := if align then ih - 1 else ih in let dw := if align then iw - 1 else iw in
@@ -359,6 +358,7 @@ Theorem constraint_resize_spec : forall (ifm ofm : list Z) (align : bool),
   constraint_resize ifm ofm align =
   if negb (py_len ifm =? 4) then Some false
   else if ((ih =? 1) && (iw =? 1)) || list_eqb ifm ofm then Some true
+  else if align && ((ih =? 1) || (iw =? 1)) then Some false
   else if dh =? 0 then None
   else Some (negb (dw =? 0) && existsb (fun k => scaled_by k dh dw nh nw) [2; 4; 8]).
 Proof.
@@ -372,26 +372,34 @@ Proof.
     destruct (Z.eqb_spec dh 0) as [E|E]; cbn [negb]; [reflexivity|]. f_equal.
     destruct (Z.eqb_spec dw 0) as [F|F]; cbn [negb orb andb]; [reflexivity|].
     rewrite orb_false_r. rewrite !andb_orb_distrib_r. rewrite !fr_pair by assumption. rewrite orb_assoc. reflexivity. }
-  subst dh dw nh nw. destruct align; cbv iota beta zeta; rewrite G;
-    match goal with |- context [if ?c =? 0 then None else _] => destruct (c =? 0) end; reflexivity.
+  subst dh dw nh nw. destruct align; cbn [andb].
+  - destruct ((ih =? 1) || (iw =? 1)); cbv iota beta zeta; [reflexivity|]. rewrite G.
+    destruct (ih - 1 =? 0); reflexivity.
+  - cbv iota beta zeta. rewrite G. destruct (ih =? 0); reflexivity.
 Qed.
 
-(* whenever no denominator vanishes the answer is the documented one *)
+(* the answer is the documented one: always with align_corners, and without it whenever the IFM height is not 0 *)
 Theorem constraint_matches_doc_resize : forall (ifm ofm : list Z) (align : bool),
-  (if align then py_nth ifm 1 <> 1 /\ py_nth ifm 2 <> 1 else py_nth ifm 1 <> 0 /\ py_nth ifm 2 <> 0) ->
+  (align = false -> py_nth ifm 1 <> 0) ->
   constraint_resize ifm ofm align = Some (doc_resize ifm ofm align).
 Proof.
   intros ifm ofm align H. rewrite constraint_resize_spec. cbv zeta. unfold doc_resize. cbv zeta.
   change doc_nums_constraint_resize with [1; 1; 1; 2; 4; 8; 1; 1; 2; 4; 8]. cbn [dn nth].
   destruct (py_len ifm =? 4); cbn [negb andb]; [|reflexivity].
   destruct (((py_nth ifm 1 =? 1) && (py_nth ifm 2 =? 1)) || list_eqb ifm ofm) eqn:E; [reflexivity|]. cbn [orb].
-  destruct align; destruct H as [H1 H2].
-  - destruct (Z.eqb_spec (py_nth ifm 1 - 1) 0); [lia|]. destruct (Z.eqb_spec (py_nth ifm 2 - 1) 0); [lia|]. reflexivity.
-  - destruct (Z.eqb_spec (py_nth ifm 1) 0); [lia|]. destruct (Z.eqb_spec (py_nth ifm 2) 0); [lia|]. reflexivity.
+  destruct align; cbn [andb].
+  - destruct (Z.eqb_spec (py_nth ifm 1) 1) as [A|A]; destruct (Z.eqb_spec (py_nth ifm 2) 1) as [B|B]; cbn [orb].
+    + rewrite A. reflexivity.
+    + rewrite A. reflexivity.
+    + rewrite B. change (1 - 1 =? 0) with true. cbn [negb]. rewrite andb_false_r. reflexivity.
+    + destruct (Z.eqb_spec (py_nth ifm 1 - 1) 0); [lia|]. destruct (Z.eqb_spec (py_nth ifm 2 - 1) 0); [lia|]. reflexivity.
+  - specialize (H eq_refl). destruct (Z.eqb_spec (py_nth ifm 1) 0); [contradiction|]. reflexivity.
 Qed.
-(* a 1xW image resized with align_corners makes the constraint function itself raise: a crash of the compiler *)
-Theorem constraint_resize_raises : exists ifm ofm, constraint_resize ifm ofm true = None.
-Proof. exists [1; 1; 4; 2], [1; 1; 7; 2]. reflexivity. Qed.
+(* with the dimensions the generic constraints admit (>= 1) the constraint function does not raise *)
+Theorem constraint_resize_total : forall ifm ofm align, 1 <= py_nth ifm 1 -> constraint_resize ifm ofm align <> None.
+Proof.
+  intros ifm ofm align H. rewrite constraint_matches_doc_resize; [discriminate|]. intros _. lia.
+Qed.
 
 Theorem constraint_matches_doc_resizebi_half_pixel_centers_dims : forall ifm ofm half,
   py_nth ifm (-3) <> 0 -> py_nth ifm (-2) <> 0 ->
